@@ -409,6 +409,8 @@ class Engine:
     def ev_Name(self, node, fr):
         if node.id == "result" and fr.spec and fr.result is not None and "result" not in fr.st.env:
             return fr.result
+        if node.id == "Ellipsis" and "Ellipsis" not in fr.st.env:
+            return T.const_value(Ellipsis)
         if node.id in ("True", "False", "None"):
             return T.const_value({"True": True, "False": False, "None": None}[node.id])
         return self.lookup_name(node.id, fr)
